@@ -457,6 +457,15 @@ class Check:
         exit_code = 0
         # 1. concrete violations (first few, one replay each)
         seen = set()
+        brk0 = self.broken()
+        if brk0:
+            for v in self.violations:
+                v.setdefault('broken_obligations', [b['name'] for b in brk0])
+        classes = {}
+        for v in self.violations:
+            k = v.get('class') or re.sub(r'\d+', 'N', v['what'])[:80]
+            classes[k] = classes.get(k, 0) + 1
+        self.coverage['violation_classes'] = classes
         for v in self.violations:
             key = v.get('class') or re.sub(r'\d+', 'N', v['what'])[:80]
             if key in seen or len(seen) >= 3:
